@@ -15,9 +15,10 @@
   applies and what the digests are is a record `Sem` of functions.  Digests are an abstract type `D`
   with decidable equality — the executable driver instantiates `D := String` (rendered hash
   pre-image), theorems take `Function.Injective` hypotheses on the digest functions they need.
-  Not modelled: `last_snapshot` (always `tick_history.last` in every modelled path),
-  `committed_ingress` / `last_materialization_errors` (always empty in replayed states),
-  `u64` overflow corners (`checked_increment` at `u64::MAX`).
+  `last_snapshot`, `committed_ingress`, `last_materialization_errors` are fields of the checkpoint
+  only (`Cp.ls`, `Cp.nIngress`, `Cp.nErrs`): in every replayed `WorldlineState` they are
+  `tick_history.last` / empty, which is exactly what `validate_checkpoint_for_history` enforces.
+  Not modelled: `u64` overflow corners (`checked_increment` at `u64::MAX`).
 -/
 import EchoVerif.Model.Basic
 
@@ -124,13 +125,19 @@ structure WState (S D O M : Type) where
   lastMat : O
   txc : Nat
 
-/-- `ReplayCheckpoint` (its state carries its own root warp and preserved initial state). -/
+/-- `ReplayCheckpoint` (its state carries its own root warp and preserved initial state).
+    `ls` = the state's `last_snapshot`, carried as the `tick_history` element whose snapshot it is
+    (in every replayed state it is `tick_history.last`); `nIngress` / `nErrs` = sizes of the retained
+    `committed_ingress` / `last_materialization_errors` (empty in every replayed state). -/
 structure Cp (S D O M : Type) where
   tick : Nat
   hash : D
   w : WState S D O M
   warp : Nat
   s0 : S
+  ls : Option (Art D M)
+  nIngress : Nat
+  nErrs : Nat
 
 /-- `WorldlineHistory`. -/
 structure Hist (S P D O M : Type) where
@@ -414,12 +421,19 @@ def validateCp (h : Hist S P D O M) (c : Cp S D O M) : Option RErr :=
       if sem.root c.w.core.g ≠ ex then some (.cpRoot c.tick)
       else if c.w.core.hist.length ≠ c.tick then some .cpMeta
       else if c.w.txc ≠ c.tick then some .cpMeta
+      else if c.nIngress ≠ 0 then some .cpMeta
+      else if c.nErrs ≠ 0 then some .cpMeta
       else if c.tick = 0 then
-        (if c.w.lastMat ≠ sem.noOut then some .cpMeta else none)
+        (if c.ls.isSome then some .cpMeta
+         else if c.w.lastMat ≠ sem.noOut then some .cpMeta else none)
       else if !histMatches sem h.entries 0 c.w.core.hist then some .cpMeta
       else match h.entries[c.tick - 1]? with
         | none => some (.histUnavail c.tick)
-        | some e => if c.w.lastMat ≠ e.outputs then some .cpMeta else none
+        | some e =>
+          if c.w.lastMat ≠ e.outputs then some .cpMeta
+          else if c.ls.isNone then some .cpMeta
+          else if c.ls ≠ c.w.core.hist.getLast? then some .cpMeta
+          else none
 
 /-- Sorted insert-or-replace by tick (`binary_search_by_key` + `insert`). -/
 def insertCp (c : Cp S D O M) : List (Cp S D O M) → List (Cp S D O M)
@@ -437,7 +451,8 @@ def addCheckpoint (h : Hist S P D O M) (c : Cp S D O M) : Except RErr (Hist S P 
 
 /-- `ReplayCheckpoint::from_state` of a state that came out of replay on base `b`. -/
 def Cp.ofState (b : Base S) (t : Nat) (w : WState S D O M) : Cp S D O M :=
-  { tick := t, hash := sem.root w.core.g, w := w, warp := b.warp, s0 := b.s0 }
+  { tick := t, hash := sem.root w.core.g, w := w, warp := b.warp, s0 := b.s0
+    ls := w.core.hist.getLast?, nIngress := 0, nErrs := 0 }
 
 /-! ### Fork -/
 
